@@ -64,10 +64,129 @@ fn settings_menu(dst: u8, rich: bool) -> Vec<Setting> {
     v
 }
 
+fn check_map(l: &mut vh::Local<'_>, cfg: vh::gen::ModeCfg, spec: &vh::gen::MapSpec, map: &Beatmap, menu: &[Setting]) {
+    let dst = cfg.dst;
+    let mode = gen::game_mode(dst);
+    for s in menu {
+        let d0: Difficulty = s.difficulty(mode);
+        let conv: Beatmap = map.clone().convert(mode, &d0.clone().inspect().mods).expect("convertible");
+        let full = api::difficulty(&d0, &map, dst).expect("convertible");
+        let total = match &full {
+            DifficultyAttributes::Osu(a) => a.n_objects(),
+            DifficultyAttributes::Taiko(a) => a.max_combo,
+            DifficultyAttributes::Catch(a) => a.n_fruits + a.n_droplets,
+            DifficultyAttributes::Mania(a) => a.n_objects,
+        };
+        for n in (0..=total).rev() {
+            let d = if n == total { d0.clone() } else { d0.clone().passed_objects(n) };
+            let st = api::strains(&d, &map, dst).expect("convertible");
+            let at = api::difficulty(&d, &map, dst).expect("convertible");
+            l.states(1);
+            l.checked(2);
+            let sk = skills(&st);
+            let ctxs = |extra: String| format!("cfg={:?} setting={s:?} passed_objects={}\n{extra}\nspec={}\n--- .osu ---\n{}", cfg, if n == total { "unset".to_owned() } else { n.to_string() }, spec.describe(), spec.text());
+            for (name, v) in &sk {
+                if let Some(bad) = v.iter().find(|x| !x.is_finite() || **x < 0.0) {
+                    l.violation("peak_range", || ctxs(format!("skill {name} has peak {bad}")));
+                    return;
+                }
+                if v.iter().any(|x| *x > 0.0) {
+                    l.nontrivial();
+                }
+            }
+            let lens: Vec<usize> = sk.iter().map(|(_, v)| v.len()).collect();
+            if lens.iter().any(|x| *x != lens[0]) {
+                l.violation("section_counts", || ctxs(format!("skills report different section counts: {:?}", sk.iter().map(|(n, v)| (*n, v.len())).collect::<Vec<_>>())));
+                return;
+            }
+            // independent section count
+            let rate1 = s.rate.is_none() && matches!(&s.mods, ModSpec::Bits(b) if b & (settings::DT | settings::HT | settings::NC) == 0);
+            if rate1 && matches!(dst, 0 | 1 | 3) && !matches!(s.mods, ModSpec::Invert | ModSpec::HoIn(_)) {
+                // objects considered: osu / mania count objects, taiko counts hits
+                let times: Vec<f64> = if dst == 1 {
+                    let mut hits = 0;
+                    let total_hits = conv.hit_objects.iter().filter(|h| h.is_circle()).count() as u32;
+                    conv.hit_objects
+                        .iter()
+                        .take_while(|h| {
+                            let take = n >= total_hits || hits < n;
+                            if h.is_circle() {
+                                hits += 1;
+                            }
+                            take
+                        })
+                        .map(|h| h.start_time)
+                        .collect()
+                } else {
+                    conv.hit_objects.iter().take(n as usize).map(|h| h.start_time).collect()
+                };
+                let first_idx = if dst == 1 { 2 } else { 1 };
+                if let Some(want) = ref_sections(&times, first_idx, 400.0) {
+                    l.checked(1);
+                    if lens[0] != want {
+                        l.violation("section_count_ref", || ctxs(format!("{} sections reported but the object times {times:?} span {want} sections of 400ms", lens[0])));
+                        return;
+                    }
+                }
+            }
+            // re-aggregation
+            match (&st, &at) {
+                (Strains::Catch(c), DifficultyAttributes::Catch(a)) => {
+                    let want = weighted(&c.movement, 0.94).sqrt() * 4.59;
+                    l.checked(1);
+                    if !close(want, a.stars) {
+                        l.violation("catch_stars", || ctxs(format!("stars={} but re-aggregated movement peaks give {want}", a.stars)));
+                        return;
+                    }
+                }
+                (Strains::Mania(m), DifficultyAttributes::Mania(a)) => {
+                    let want = weighted(&m.strains, 0.9) * 0.018;
+                    l.checked(1);
+                    if !close(want, a.stars) {
+                        l.violation("mania_stars", || ctxs(format!("stars={} but re-aggregated strain peaks give {want}", a.stars)));
+                        return;
+                    }
+                }
+                (Strains::Osu(o), DifficultyAttributes::Osu(a)) => {
+                    let mut want = o.flashlight.iter().sum::<f64>().sqrt() * 0.0675;
+                    if let ModSpec::Bits(b) = s.mods {
+                        if b & settings::TD != 0 {
+                            want = want.powf(0.8);
+                        }
+                        if b & settings::RX != 0 {
+                            want *= 0.7;
+                        } else if b & settings::AP != 0 {
+                            want *= 0.4;
+                        }
+                    }
+                    l.checked(1);
+                    if !close(want, a.flashlight) {
+                        l.violation("osu_flashlight", || ctxs(format!("flashlight={} but the summed flashlight peaks give {want}", a.flashlight)));
+                        return;
+                    }
+                }
+                _ => {}
+            }
+        }
+    }
+}
+
 fn main() {
     let ctx = Ctx::from_env("C16");
     ctx.rule("case = (mode configuration, grammar map with gaps {150,400,1000,7000} and first start in {-500,0,400,1000}); per case: settings menu x every passed_objects prefix; oracle = peaks finite and >= 0; all skills of the mode have the same number of sections; at clock rate 1 the section count equals an independent count from the object times (osu!, taiko, mania); re-aggregation (drop zeros, sort descending, sum p_i*w^i with w=0.94 catch / 0.9 mania; plain sum for flashlight, then TD/RX/AP factors) reproduces stars (catch, mania) and flashlight (osu!) within relative 1e-9; non-trivial = at least one positive peak");
 
+    // periodic longer maps first
+    {
+        let rich = !ctx.quick();
+        for mu in vh::uni::motif_universes(&vh::gen::MODE_CFGS, ctx.pick(2, 3), 6, false) {
+            let menu = settings_menu(mu.cfg.dst, rich);
+            ctx.universe(&mu.name, mu.total, |idx, l| {
+                let spec = mu.spec(idx);
+                let map = spec.decode();
+                check_map(l, mu.cfg, &spec, &map, &menu);
+            });
+        }
+    }
     let n_max = ctx.pick(3, 4);
     for first_start in [1000, -500, 0, 400] {
         let mut opts = UniOpts::new(n_max);
@@ -84,110 +203,7 @@ fn main() {
             ctx.universe(&u.name, u.total, |idx, l| {
                 let (spec, map) = u.decode(idx);
                 u.sample(l, idx, &spec, "settings menu x every prefix");
-                let dst = u.cfg.dst;
-                let mode = gen::game_mode(dst);
-                for s in &menu {
-                    let d0: Difficulty = s.difficulty(mode);
-                    let conv: Beatmap = map.clone().convert(mode, &d0.clone().inspect().mods).expect("convertible");
-                    let full = api::difficulty(&d0, &map, dst).expect("convertible");
-                    let total = match &full {
-                        DifficultyAttributes::Osu(a) => a.n_objects(),
-                        DifficultyAttributes::Taiko(a) => a.max_combo,
-                        DifficultyAttributes::Catch(a) => a.n_fruits + a.n_droplets,
-                        DifficultyAttributes::Mania(a) => a.n_objects,
-                    };
-                    for n in (0..=total).rev() {
-                        let d = if n == total { d0.clone() } else { d0.clone().passed_objects(n) };
-                        let st = api::strains(&d, &map, dst).expect("convertible");
-                        let at = api::difficulty(&d, &map, dst).expect("convertible");
-                        l.states(1);
-                        l.checked(2);
-                        let sk = skills(&st);
-                        let ctxs = |extra: String| format!("cfg={:?} setting={s:?} passed_objects={}\n{extra}\nspec={}\n--- .osu ---\n{}", u.cfg, if n == total { "unset".to_owned() } else { n.to_string() }, spec.describe(), spec.text());
-                        for (name, v) in &sk {
-                            if let Some(bad) = v.iter().find(|x| !x.is_finite() || **x < 0.0) {
-                                l.violation("peak_range", || ctxs(format!("skill {name} has peak {bad}")));
-                                return;
-                            }
-                            if v.iter().any(|x| *x > 0.0) {
-                                l.nontrivial();
-                            }
-                        }
-                        let lens: Vec<usize> = sk.iter().map(|(_, v)| v.len()).collect();
-                        if lens.iter().any(|x| *x != lens[0]) {
-                            l.violation("section_counts", || ctxs(format!("skills report different section counts: {:?}", sk.iter().map(|(n, v)| (*n, v.len())).collect::<Vec<_>>())));
-                            return;
-                        }
-                        // independent section count
-                        let rate1 = s.rate.is_none() && matches!(&s.mods, ModSpec::Bits(b) if b & (settings::DT | settings::HT | settings::NC) == 0);
-                        if rate1 && matches!(dst, 0 | 1 | 3) && !matches!(s.mods, ModSpec::Invert | ModSpec::HoIn(_)) {
-                            // objects considered: osu / mania count objects, taiko counts hits
-                            let times: Vec<f64> = if dst == 1 {
-                                let mut hits = 0;
-                                let total_hits = conv.hit_objects.iter().filter(|h| h.is_circle()).count() as u32;
-                                conv.hit_objects
-                                    .iter()
-                                    .take_while(|h| {
-                                        let take = n >= total_hits || hits < n;
-                                        if h.is_circle() {
-                                            hits += 1;
-                                        }
-                                        take
-                                    })
-                                    .map(|h| h.start_time)
-                                    .collect()
-                            } else {
-                                conv.hit_objects.iter().take(n as usize).map(|h| h.start_time).collect()
-                            };
-                            let first_idx = if dst == 1 { 2 } else { 1 };
-                            if let Some(want) = ref_sections(&times, first_idx, 400.0) {
-                                l.checked(1);
-                                if lens[0] != want {
-                                    l.violation("section_count_ref", || ctxs(format!("{} sections reported but the object times {times:?} span {want} sections of 400ms", lens[0])));
-                                    return;
-                                }
-                            }
-                        }
-                        // re-aggregation
-                        match (&st, &at) {
-                            (Strains::Catch(c), DifficultyAttributes::Catch(a)) => {
-                                let want = weighted(&c.movement, 0.94).sqrt() * 4.59;
-                                l.checked(1);
-                                if !close(want, a.stars) {
-                                    l.violation("catch_stars", || ctxs(format!("stars={} but re-aggregated movement peaks give {want}", a.stars)));
-                                    return;
-                                }
-                            }
-                            (Strains::Mania(m), DifficultyAttributes::Mania(a)) => {
-                                let want = weighted(&m.strains, 0.9) * 0.018;
-                                l.checked(1);
-                                if !close(want, a.stars) {
-                                    l.violation("mania_stars", || ctxs(format!("stars={} but re-aggregated strain peaks give {want}", a.stars)));
-                                    return;
-                                }
-                            }
-                            (Strains::Osu(o), DifficultyAttributes::Osu(a)) => {
-                                let mut want = o.flashlight.iter().sum::<f64>().sqrt() * 0.0675;
-                                if let ModSpec::Bits(b) = s.mods {
-                                    if b & settings::TD != 0 {
-                                        want = want.powf(0.8);
-                                    }
-                                    if b & settings::RX != 0 {
-                                        want *= 0.7;
-                                    } else if b & settings::AP != 0 {
-                                        want *= 0.4;
-                                    }
-                                }
-                                l.checked(1);
-                                if !close(want, a.flashlight) {
-                                    l.violation("osu_flashlight", || ctxs(format!("flashlight={} but the summed flashlight peaks give {want}", a.flashlight)));
-                                    return;
-                                }
-                            }
-                            _ => {}
-                        }
-                    }
-                }
+                check_map(l, u.cfg, &spec, &map, &menu);
             });
         }
     }
